@@ -10,7 +10,8 @@ LEVEL = "exploration"
 RULE = ("Hypothesis cases: two groups of 1-4 simple integer-grid polygons (star-shaped, histogram, comb, convex, rectangle, "
         "triangle; either orientation; vertices snapped to a coarse sub-lattice with high probability to force shared "
         "edges/vertices/collinear overlaps/nesting), polygon size from 64 to 2^45 grid units, centre offsets to 2^48, "
-        "scaling from {1,10,1e3,1e6}; in two cases of five a small polygon is put inside the first polygon of A, at its centre or "
+        "scaling from {1,10,1e3,1e6}; plus a systematic family judged without the K1 classifier (every L-shape x rectangle pair of a "
+        "4 x 4 lattice, both operand orders; half of them per quick run); in two cases of five a small polygon is put inside the first polygon of A, at its centre or "
         "next to one of its convex corners (inside a tooth or tip: holes in separately swept lobes); optionally the first operand is the output of an earlier operation (keyholes). All "
         "four operations are run; oracle = exact winding-number membership at deliberately placed sample points that are "
         ">= 2 grid units from every input edge (in_result == op(in_A, in_B)), no point covered by two output polygons or "
@@ -146,6 +147,7 @@ def judge_op(ctx, case, lines, op, r, scaling, off, samples, memb, areas):
 
 
 def check(ctx, case, strict=False):
+    strict = strict or bool(case.get("strict"))      # systematic small configurations are judged without the K1 classifier
     scaling = case["scaling"]
     off = case["offset"]
     A, B, D = case["A"], case["B"], case["D"]
@@ -267,7 +269,36 @@ def finish(ctx, case, classes, samples, cands, fb, scaling, res):
 def run_worker(ctx):
     n = 3000 if ctx.tier == "quick" else 60000
     v = ctx.hypothesis(check, case_strategy(), ctx.share(n), "boolean")
-    return [v] if v else []
+    vs = [v] if v else []
+    # systematic small configurations, judged WITHOUT the known-finding classifier: an L-shaped polygon (a rectangle of the
+    # 0..3 x 0..3 lattice minus a corner rectangle) against a rectangle of the same lattice, both operand orders - shared
+    # edges, holes touching the outline in one vertex, results made of several contours.  The unchanged tree answers all of
+    # them exactly (C05-K1 needs denser contact patterns), so any mismatch here is a violation however Clipper's tree looks.
+    rects = [(x0, y0, x1, y1) for x0 in range(4) for x1 in range(x0 + 1, 4) for y0 in range(4) for y1 in range(y0 + 1, 4)]
+    ls = []
+    for (x0, y0, x1, y1) in rects:
+        for cx in range(x0 + 1, x1):
+            for cy in range(y0 + 1, y1):
+                ls.append([[x0, y0], [x1, y0], [x1, cy], [cx, cy], [cx, y1], [x0, y1]])      # top-right corner removed
+                ls.append([[x0, y0], [x1, y0], [x1, y1], [cx, y1], [cx, cy], [x0, cy]])      # top-left corner removed
+    i = 0
+    for L in ls:
+        for (x0, y0, x1, y1) in rects:
+            R = [[x0, y0], [x1, y0], [x1, y1], [x0, y1]]
+            for A, B in (([L], [R]), ([R], [L])):
+                i += 1
+                if i % ctx.nworkers != ctx.worker:
+                    continue
+                if ctx.tier == "quick" and (i // ctx.nworkers) % 2 != ctx.seed % 2:
+                    continue
+                try:
+                    check(ctx, {"scaling": 8.0, "offset": [0, 0], "A": [[[8 * x, 8 * y] for x, y in P] for P in A],
+                                "B": [[[8 * x, 8 * y] for x, y in P] for P in B], "feedback": None, "D": [], "strict": True})
+                except Violation as v2:
+                    v2.test = "small_strict"
+                    vs.append(v2)
+                    return vs
+    return vs
 
 
 def replay(ctx, test, case, ignore_known=False):
